@@ -140,6 +140,13 @@ CHECKS = {
         technique="Lean 4 totality theorems over hand-written models + outcome-class correspondence on a fuzzed stream",
         ref="DESIGN.md §5 C09",
     ),
+    "C05": dict(
+        category="other",
+        text="The recovery clause (relative error below 1e-4) is a statement about the convergence of scipy's floating-point trust-region solver from a half-cell-accurate start; it is NOT a theorem and is validated here by differential runs of the real locate_droplets(refine=True) against the idealised model locate(render(E)) = E with the property's own tolerance (all grid families, periodicities, spacing ratios <= 1.5, centres across periodic faces, 1-4 droplets, every threshold rule, levels default / supplied / fitted under affine intensity maps; observed worst relative error ~1e-8). The Lean part (Props/C05.lean over definitions REGENERATED from _image_deviation and get_phase_field) proves the logic recovery depends on: the ground truth is a zero of the residual for supplied and for fitted levels (truth_zero_residual) - so it is a global minimiser of cost 0 inside the bounds -, zero residual pins the profile (zero_residual_iff_same_profile, profile_injective), the start is feasible (C04) and within half a cell (C01). These do detect the realistic logic mutations (renderer/fit-model mismatch, wrong initial guess, wrong free mask).",
+        note="Not decided by proof: convergence and accuracy of scipy.optimize.least_squares. Trusted for the Lean part: kernel, standard axioms, translator (monitored by evaluating the regenerated residual at Float on the vectors the real code evaluates).",
+        technique="differential recovery runs (testing) + Lean 4 theorems over regenerated residual/renderer for the supporting logic",
+        ref="DESIGN.md §5 C05",
+    ),
 }
 
 NOT_APPLICABLE = {}
